@@ -61,7 +61,7 @@ def on_verdict_factory(chk, pid, monitors):
 C05_MONITORS = {"ResponseIntegrity", "RequestIntegrity", "SeqConsecutive", "MoreFollows", "WindowBound", "WindowRange",
                 "SingleFaultRepaired", "Terminates", "AtMostOneOutcome",
                 # "a transfer that cannot be completed is reported as an abort": at quiescence the requester has its one outcome
-                "ExactlyOneAtQuiescence"}
+                "ExactlyOneAtQuiescence", "RefusedThoughFeasible"}
 
 
 def single_fault_traces(rc, kinds=("drop", "dup", "delay", "shrink"), orders=("fifo", "timers"), frames=None):
@@ -172,8 +172,9 @@ def main(tier, seed):
         traces.append(tsmlib.record(rc))
         chk.case(("own-limit", nq, nr, cms, sms), nontrivial=True)
     # (i-b) a request of exactly as many segments as the peer is known to accept goes through
-    for n in (2, 4):
-        rc = tsmlib.rig_cfg(seg=50, nq=n, nr=1, pwc=2, pws=2, known=True, known_maxsegs=n)
+    for n in (2, 3, 4, 8):
+        # (a known peer's max APDU of 50 leaves 44 octets per segment: the length below needs exactly n of them)
+        rc = tsmlib.rig_cfg(seg=50, nq=n, nr=1, lq=44 * (n - 1) + 22, pwc=2, pws=2, known=True, known_maxsegs=n, feasible=True)
         traces.append(tsmlib.record(rc))
         chk.case(("known-maxsegs", n), nontrivial=True)
     # (i-c) acks that arrive much later than the segment timeout (and a slow application): a stale ack of the request phase turns
@@ -183,6 +184,12 @@ def main(tier, seed):
         for t in single_fault_traces(rc, kinds=("delay",), orders=("fifo", "timers")):
             traces.append(t)
             chk.case(("late-ack", delay_by, app_delay, tuple(t["faults"].items()), t["order"]), nontrivial=True)
+    # (i-d) a straggler: the copy of a duplicated frame turns up right after the first segment of the answer
+    for nq, nr, pwc, pws in ((3, 2, 2, 2), (4, 3, 1, 2), (5, 3, 3, 1)):
+        rc = tsmlib.rig_cfg(seg=50, nq=nq, nr=nr, pwc=pwc, pws=pws)
+        for t in single_fault_traces(rc, kinds=("dup",), orders=("late-dup",)):
+            traces.append(t)
+            chk.case(("straggler", nq, nr, pwc, pws, tuple(t["faults"].items())), nontrivial=True)
     # (ii) every single fault at every frame, two scheduler orders; windows 1..8
     wins = [(w, 9 - w) for w in range(1, 9)] if thorough else [(1, 8), (2, 2), (3, 5), (8, 1)]
     for pwc, pws in wins:
